@@ -7,6 +7,14 @@ BASE_NOTE = ("Trusted: Coq 8.16.1 kernel (no native_compute; vm_compute only in 
              "(Print Assumptions parsed every run; theorems at R would add the 3 stdlib real axioms); ExtrOcamlBasic extraction with Z/Q/Qc kept as datatypes + a Zarith I/O driver; "
              "the Python correspondence harness and its tolerances; JAX/NumPy primitives are modelled by contracts (rfftn/irfftn = DFT half-spectrum, scan = fold, exp). ")
 CLAIMED = {
+ "C08": dict(text="Theorems: the shift theorem (any field with a primitive root); the pseudo-spectral products (quadratic and cubic, any D, N, band) commute with every character twist "
+                  "(chi(m) chi(wrap(k-m)) = chi(k)), hence so do the nonlinear terms (proved for both single-channel convection forms and the gradient norm; the other terms are the same combinators); "
+                  "every ETDRK order 0-4 (stage programs translated from the source) commutes with any mode-wise multiplier the nonlinear term commutes with - for ALL states; the generic symbol is "
+                  "permutation invariant and reduces to the 1-D symbol with a_0 -> D a_0 on states constant along the other axes (D <= 3).",
+             note="Translation equivariance of all 36 classes, axis permutations (vector channels permuted along, vorticity pseudo-scalar sign, Nyquist-free states for odd-order symbols on even grids) and "
+                  "1-D embedding along every axis are checked on the real code (incl. N = 32 where the dealiasing cutoff is fractional and odd N); permutation equivariance of the nonlinear terms is "
+                  "not proved.",
+             technique="Rocq proof (character-twist algebra of circular convolutions, stage-program equivariance) + symmetry sweep on the real code", design="§4 C08"),
  "C15": dict(text="Theorems: trigonometric interpolation is exact (any field with a primitive root, any n, any query point: the character table is arbitrary) and reproduces every state at its grid points "
                   "(inversion theorem); the copied mode blocks partition the smaller grid and preserve the signed wavenumber for all parity combinations; the resampling model keeps the mean of ANY "
                   "state and all coefficients u_hat(k)/N^D of a Nyquist-free band-limited state when mapped to a finer grid or a coarser one that resolves it (any D, n, m, oddball setting). The model's "
